@@ -19,7 +19,12 @@ HERE = os.path.dirname(os.path.abspath(__file__))
 PY = '/venv/bin/python'
 
 
+FORCE = None       # --check Cxx: run this property's check against every given patch (cross-property catches)
+
+
 def props_of(path):
+    if FORCE:
+        return [FORCE]
     if path.endswith('patch.diff'):
         meta = json.load(open(os.path.join(os.path.dirname(path), 'meta.json')))
         p = meta.get('checks') or meta['property']
@@ -56,7 +61,13 @@ def one(path, tier='quick', keep_tests=True):
 
 
 def main():
-    args = [a for a in sys.argv[1:] if not a.startswith('--')]
+    global FORCE
+    argv = sys.argv[1:]
+    if '--check' in argv:
+        i = argv.index('--check')
+        FORCE = argv[i + 1]
+        del argv[i:i + 2]
+    args = [a for a in argv if not a.startswith('--')]
     tier = 'thorough' if '--thorough' in sys.argv else 'quick'
     paths = args or sorted(glob.glob(os.path.join(HERE, 'mutants', '*.patch')) + glob.glob(os.path.join(HERE, 'seeded', '*', 'patch.diff')))
     bad = 0
@@ -73,7 +84,7 @@ def main():
                 print('    ', detail)
     for d in glob.glob(os.path.join(HERE, '.work', 'noevidence-*')):
         shutil.rmtree(d, ignore_errors=True)
-    if not args:
+    if not args and not FORCE:
         # full run: keep the table that DESIGN.md section 9 is generated from (tools/mkcatchtable.py)
         with open(os.path.join(HERE, 'selftest_results.json'), 'w') as f:
             json.dump(results, f, indent=1, sort_keys=True)
